@@ -2,7 +2,7 @@
 
 Exhaustive decision table (DESIGN.md section 3, C06): rect position x size x (rx, ry) given/omitted/zero/over-large,
 circle/ellipse centre x radii incl. zero, line, polyline/polygon with 0,1,2,3,5 points incl. repeated points,
-x 7 transforms (identity, similarity, two reflections incl. a=d=0, anisotropic scale, shear, general) x three ways of
+x 8 transforms (identity, similarity, two reflections incl. a=d=0, anisotropic scale, shear, general, symmetric stretch) x three ways of
 construction (keyword values, positional arguments, attribute dictionary of strings) x transformed in {True, False}.
 Oracle: ref/shapespec.py (SVG 2 ch.10) for segments(transformed=False); the matrix image of those for
 segments(transformed=True); shape == Path(shape), Path(shape.d()) geometrically equal, equal bbox() and length().
@@ -20,12 +20,12 @@ PROPERTY = "C06"
 LEVEL = "exploration"
 RULE = ("exhaustive decision table: rect 3x3 positions x 3x3 sizes (incl. zero) x 6x6 (rx,ry) cells {omitted, 0, 1, 3, "
         "half-side-exceeding 100, exactly half}; ellipse/circle centres x radii incl. zero; line; polyline/polygon with "
-        "0,1,2,3,5 points incl. repeats; x 7 transforms x 3 constructions.  Non-trivial: the shape renders (non-zero "
+        "0,1,2,3,5 points incl. repeats; x 8 transforms x 3 constructions.  Non-trivial: the shape renders (non-zero "
         "dimensions / >= 1 point); distinct = distinct (kind, parameter cell, transform).")
 MANIFEST = dict(
     technique="bounded-exhaustive enumeration of the shape-parameter decision table against the SVG 2 equivalent paths",
     text="every cell of the rect radii auto-completion/clamping table and every degenerate case of the other shapes is "
-         "constructed three ways under seven transforms; segments, d(), Path(shape), equality, bbox and length are compared "
+         "constructed three ways under eight transforms; segments, d(), Path(shape), equality, bbox and length are compared "
          "with the equivalent path of SVG 2 chapter 10 and with each other",
     note="trusts ref/shapespec.py; percent radii and rect without width/height are contested between SVG 1.1/2 and are not "
          "enumerated; Path(shape.d()) is compared geometrically within the print precision (arc radii have 6 digits: C07)",
@@ -35,7 +35,7 @@ ASSUMPTIONS = [
     "with the matrix image of the untransformed segment (transformed)",
 ]
 
-TNAMES = ["I", "SIM", "MX", "SWAP", "S23", "KX30", "G"]
+TNAMES = ["I", "SIM", "MX", "SWAP", "S23", "KX30", "G", "SYM"]
 TMATS = dict(MATS)
 TMATS["SIM"] = af.mul(af.translate(3.0, -2.0), af.mul(af.rotate(math.radians(30)), af.scale(2.0)))
 CONSTR = ["kw", "pos", "dict"]
